@@ -121,6 +121,13 @@ func (x *Exec) evalCall(call *ast.CallExpr, st *State) []Term {
 			after = post
 		}
 	}
+	// static receiver type (names the uninterpreted function of external methods)
+	savedRS := x.recvStatic
+	x.recvStatic = nil
+	if se, ok := fun.(*ast.SelectorExpr); ok && recv != nil {
+		x.recvStatic = x.typeOf(se.X)
+	}
+	defer func() { x.recvStatic = savedRS }()
 	// interface method: dynamic dispatch
 	if recv != nil && isInterface(recvT) {
 		return x.callInterfaceMethod(call, fn, *recv, recvT, st)
@@ -715,6 +722,19 @@ func (x *Exec) inline(call *ast.CallExpr, fi *FuncInfo, fn *types.Func, recv *Te
 	for _, rv := range fr.results {
 		out = append(out, st.vars[rv])
 		delete(st.vars, rv)
+	}
+	// the callee's own variables go out of scope
+	for v := range st.vars {
+		if v.Pos() >= fi.FuncType().Pos() && v.Pos() <= fi.Body().End() && fi.Pkg.Fset.File(v.Pos()) == fi.Pkg.Fset.File(fi.Body().Pos()) {
+			if _, mine := entry.vars[v]; !mine {
+				delete(st.vars, v)
+			}
+		}
+	}
+	if rv := x.recvVarOf(fi); rv != nil {
+		if _, mine := entry.vars[rv]; !mine {
+			delete(st.vars, rv)
+		}
 	}
 	return out
 }
